@@ -1,7 +1,8 @@
 //! C18: terminal identity across the generated parts (export model vs the grammar's own terminal table).
 use crate::{rng::Rng, sx, Args};
 use parol::parser::parol_grammar::LookaheadExpression;
-use parol::{calculate_lookahead_dfas, check_and_transform_grammar, generate_parser_export_model, obtain_grammar_config_from_string, Symbol, Terminal, TerminalKind};
+use parol::parser::parol_grammar::GrammarType;
+use parol::{calculate_lalr1_parse_table, calculate_lookahead_dfas, check_and_transform_grammar, generate_lalr1_parser_export_model, generate_parser_export_model, obtain_grammar_config_from_string, Symbol, Terminal, TerminalKind};
 
 fn kind_no(k: TerminalKind) -> u8 {
     match k { TerminalKind::Legacy => 0, TerminalKind::Regex => 1, TerminalKind::Raw => 2 }
@@ -20,7 +21,11 @@ pub fn random_par(rng: &mut Rng) -> String {
     let pool = ["\"a.c\"", "'a.c'", "/a.c/", "\"\\+\"", "'\\+'", "'+'", "\"x\"", "'x'", "/x/", "\"a\" ?= \"b\"", "\"a\"", "'a' ?= 'b'", "\"a\" ?! \"b\"", "\"y\"", "'z'"];
     let n = rng.range(1, 3);
     let names = ["S", "A", "B"];
-    let mut s = String::from("%start S\n%%\n");
+    let mut s = String::from("%start S\n");
+    if rng.chance(1, 3) { s.push_str("%grammar_type 'lalr(1)'\n"); }
+    let modes = rng.chance(1, 3);
+    if modes { s.push_str("%on Q %enter Inner\n%scanner Inner {\n    %on E %enter INITIAL\n}\n"); }
+    s.push_str("%%\n");
     for i in 0..n {
         let nalt = rng.range(1, 3);
         let alts: Vec<String> = (0..nalt).map(|_| {
@@ -32,6 +37,13 @@ pub fn random_par(rng: &mut Rng) -> String {
     if n > 1 { // make every non-terminal reachable
         s = s.replacen("S: ", &format!("S: {} | ", names[1..n].join(" ")), 1);
     }
+    if modes {
+        // the trigger of the inner state and a terminal of the initial state have the same expansion but different
+        // quoting classes
+        s = s.replacen("S: ", "S: Q \"in\" E | \"end\" | ", 1);
+        s.push_str("Q: \"\\u{22}\";\nE: <Inner>'end';\n");
+        s = s.replace("\"in\"", "<Inner>\"in\"");
+    }
     s
 }
 
@@ -40,10 +52,16 @@ pub fn case(text: &str) -> String {
         let mut gc = obtain_grammar_config_from_string(text, false).map_err(|_| "rejected".to_string())?;
         let cfg2 = check_and_transform_grammar(&gc.cfg, gc.grammar_type).map_err(|_| "rejected-by-checks".to_string())?;
         gc.update_cfg(cfg2);
-        let dfas = calculate_lookahead_dfas(&gc, 5).map_err(|_| "not-ll-k".to_string())?;
-        let k = dfas.values().map(|d| d.k).max().unwrap_or(0);
-        gc.update_lookahead_size(k);
-        let export = generate_parser_export_model(&gc, &dfas).map_err(|e| format!("export-error {e}"))?;
+        let lalr = gc.grammar_type == GrammarType::LALR1;
+        let export = if lalr {
+            let (tbl, _) = calculate_lalr1_parse_table(&gc).map_err(|_| "lalr-conflict".to_string())?;
+            generate_lalr1_parser_export_model(&gc, &tbl).map_err(|e| format!("export-error {e}"))?
+        } else {
+            let dfas = calculate_lookahead_dfas(&gc, 5).map_err(|_| "not-ll-k".to_string())?;
+            let k = dfas.values().map(|d| d.k).max().unwrap_or(0);
+            gc.update_lookahead_size(k);
+            generate_parser_export_model(&gc, &dfas).map_err(|e| format!("export-error {e}"))?
+        };
         let ev = serde_json::to_value(&export).unwrap();
         // the grammar's own terminal table (what scanner, automata and LR table are numbered by)
         let ordered: Vec<String> = gc.cfg.get_ordered_terminals().iter().map(|(t, k, l, _)| occ_sx(t, *k, l)).collect();
@@ -60,7 +78,34 @@ pub fn case(text: &str) -> String {
         }
         // the scanner's own numbering
         let scanner: Vec<String> = ev["scanner"]["terminals"].as_array().unwrap().iter().map(|t| format!("{}", t["index"].as_u64().unwrap())).collect();
-        Ok(format!("(tix {} ({}) ({}) ({}))", sx::s(text), ordered.join(" "), claims.join(" "), scanner.join(" ")))
+        // the grammar in the numbering of the PRODUCTION TABLE, and the automata / LR table (numbered by the analysis)
+        let prods: Vec<String> = ev["productions"].as_array().unwrap().iter().map(|p| format!("({} {})", p["lhs_index"],
+            p["rhs"].as_array().unwrap().iter().map(|y| if let Some(n) = y.get("NonTerminal") { format!("-{}", n.as_u64().unwrap() + 1) } else { y["Terminal"]["index"].to_string() }).collect::<Vec<_>>().join(" "))).collect();
+        let g2 = format!("({} {})", ev["start_symbol_index"], prods.join(" "));
+        let tables = if lalr {
+            let t = &ev["lalr_parse_table"];
+            let acts: Vec<String> = t["actions"].as_array().unwrap().iter().map(|a| if a.is_string() { "(a)".to_string() } else if let Some(x) = a.get("Shift") { format!("(s {})", x) } else {
+                let r = &a["Reduce"]; if r.is_array() { format!("(r {} {})", r[0], r[1]) } else { format!("(r {} {})", r["non_terminal_index"], r["production_index"]) } }).collect();
+            let pairs = |v: &serde_json::Value| v.as_array().unwrap().iter().map(|p| format!("({} {})", p[0], p[1])).collect::<Vec<_>>().join(" ");
+            let states: Vec<String> = t["states"].as_array().unwrap().iter().map(|st| format!("(({}) ({}))", pairs(&st["actions"]), pairs(&st["gotos"]))).collect();
+            let lp: Vec<String> = ev["productions"].as_array().unwrap().iter().map(|p| format!("({} {})", p["lhs_index"], p["rhs"].as_array().unwrap().len())).collect();
+            format!("(lr (({}) ({}) ({}) {} 64 {}))", acts.join(" "), states.join(" "), lp.join(" "), ev["start_symbol_index"], ev["non_terminal_names"].as_array().unwrap().len())
+        } else {
+            let autos: Vec<String> = ev["lookahead_automata"].as_array().unwrap().iter().map(|a| format!("({} {} {} ({}))", a["non_terminal_index"], a["prod0"], a["k"],
+                a["transitions"].as_array().unwrap().iter().map(|t| format!("({} {} {} {})", t["from_state"], t["term"], t["to_state"], t["prod_num"])).collect::<Vec<_>>().join(" "))).collect();
+            let k = ev["lookahead_automata"].as_array().unwrap().iter().map(|a| a["k"].as_u64().unwrap_or(0)).max().unwrap_or(0);
+            format!("(ll {} ({}))", k.max(1), autos.join(" "))
+        };
+        // scanner states: members, transition triggers and skip lists (a trigger / skipped token must be a member)
+        let nstates = ev["scanner"]["scanner_states"].as_array().unwrap().len();
+        let states: Vec<String> = (0..nstates).map(|m| {
+            let members: Vec<String> = ev["scanner"]["terminals"].as_array().unwrap().iter().filter(|t| t["scanner_states"].as_array().unwrap().iter().any(|x| x.as_u64() == Some(m as u64))).map(|t| t["index"].to_string()).collect();
+            let st = &ev["scanner"]["scanner_states"][m];
+            let trig: Vec<String> = st["transitions"].as_array().unwrap().iter().map(|t| t["terminal_index"].to_string()).collect();
+            let skip: Vec<String> = st["skip_tokens"].as_array().unwrap().iter().map(|t| t.to_string()).collect();
+            format!("(({}) ({}) ({}))", members.join(" "), trig.join(" "), skip.join(" "))
+        }).collect();
+        Ok(format!("(tix {} ({}) ({}) ({}) {} {} ({}))", sx::s(text), ordered.join(" "), claims.join(" "), scanner.join(" "), g2, tables, states.join(" ")))
     });
     match r {
         Err(_) => format!("(tix {} panic)", sx::s(text)),
